@@ -33,6 +33,7 @@ mutual
     | .none => "none"
     | .ok x => "ok(" ++ render x ++ ")"
     | .err x => "err(" ++ render x ++ ")"
+    | .ext t => t
   def renderAll : List Val → List String
     | [] => []
     | x :: xs => render x :: renderAll xs
@@ -63,6 +64,7 @@ mutual
     | .none => by simp [strV, render]
     | .ok x => by simp only [strV, render, C28_str_eq_render x, String.append_assoc]
     | .err x => by simp only [strV, render, C28_str_eq_render x, String.append_assoc]
+    | .ext t => by simp [strV, render]
   /-- `array_to_string_helper(arr, idx)` is the `", "`-separated list of the texts of `arr[idx ..]`. -/
   theorem C28_helper_eq_join : ∀ xs : List Val, helper xs = joinComma (renderAll xs)
     | [] => by simp [helper, renderAll, joinComma]
@@ -131,6 +133,12 @@ theorem C28_rendering_is_pure (l : List Stmt) : emitAll l = String.join (l.map S
   | str v => exact C28_str_eq_render v
   | chain vs => exact C28_format_chain_spec vs
   | lit s => rfl
+
+/-- values of other types (floats, user types and channels with their own `ToString`) are spliced into the
+    built-in containers with exactly the text their own `str` yields -/
+theorem C28_foreign_leaf_spliced (t : String) :
+    strV (.arr [.ext t, .ext t]) = "[ " ++ t ++ ", " ++ t ++ " ]" ∧ strV (.some (.tup2 (.ext t) (.bool true))) = "some(" ++ ("(" ++ t ++ ", " ++ "true" ++ ")") ++ ")" := by
+  constructor <;> simp [strV, helper, String.append_assoc]
 
 -- the statement is about concrete text: a nested sample evaluated through the model
 example : strV (.arr [.tup2 (.int 1) (.str "a, b"), .tup2 (.int (-2)) (.str "")]) = "[ (1, a, b), (-2, ) ]" := by
